@@ -3,15 +3,24 @@ import re
 import absint
 from engines import float_div_sites, classify_selection, enum_arms, norm_name, kind_elements, kind_of_callee, KINDS, positive_edges
 from prov import params_of
-from prov import Prov
+from prov import Prov, field_names
+from expr import Extract, S, C, F, add, sub, mul, div, show, unknowns
+from expr import equal as expr_equal
 
 CLAIM = ("(IDENT) in GraphIc, Jc and Mutation - documented to score 1 for a term compared with itself - the identity test on the two terms is the "
          "first decision: its true edge returns the constant 1 and every other result is produced only after the test failed; "
          "(GUARD) every float division and ln in the built-in similarity code (similarity/defaults.rs) has a divisor/argument that a sign/zero "
          "abstract interpretation proves non-zero (positive for ln) at that point, so no NaN/infinity source exists (one named exemption: Jc); "
          "(DISPATCH) the arms of `Builtins::calculate`, `InformationContent::get_kind` and `Mutation::calculate` are not cross-wired; "
-         "(SELECT) Resnik's fold selects the maximum starting from a non-negative constant; (KIND) the three Mutation helpers read only their own annotation kind.")
-NOT_DECIDED = "symmetry, the numeric values of the formulas and the '=1 on identical terms' cases (statements about values computed by loops over runtime sets)."
+         "(SELECT) Resnik's fold selects the maximum starting from a non-negative constant; (KIND) the three Mutation helpers read only their own annotation kind, "
+         "and every get_kind / Resnik::new / Lin::new inside a measure receives the measure's own `kind`; (FIELD) Resnik reduces over the INCLUSIVE common ancestors "
+         "of (a, b), GraphIc's numerator over all_common_ancestors and its denominator over all_union_ancestors of (a, b); (FORMULA) the non-constant result of Lin, Jc, "
+         "Relevance, InformationCoefficient, GraphIc, Distance and the Mutation helpers, extracted as an expression over its leaves, is algebraically equal (as a "
+         "quotient of polynomials over Q, exp opaque) to the documented formula.")
+NOT_DECIDED = ("symmetry, floating-point rounding of the formulas, the values of the leaves (sums and maxima over runtime sets) and the '=1 on identical terms' cases. "
+               "Observation, not armed: HpoTerm::all_union_ancestors / all_union_ancestor_ids are documented as including the two terms but return the plain union of "
+               "their ancestor sets (their doctests pin that); GraphIc therefore sums its numerator over an inclusive and its denominator over an exclusive set, as the "
+               "reference implementation PyHPO does, and the pinned literal scores depend on it.")
 
 FILE = "src/similarity/defaults.rs"
 EXEMPT_DIV = {
@@ -188,6 +197,188 @@ def run(ck, prog, ctx):
                 ck.ob("SELECT", "Resnik/fold", t.callee.method == "max", "Resnik reduces with Iterator::%s" % t.callee.method, where=rs.where(t.line))
         if not done:
             ck.undecided("SELECT", "Resnik/fold", "no reduction recognised in Resnik::calculate", where=rs.where())
+
+    # ------------------------------------------------------------------ FIELD: candidate sets of the ancestor-based measures
+    ck.rule("FIELD", "the ancestor set a measure reduces over is the INCLUSIVE one of both terms (all_common_ancestors / all_union_ancestors): the terms themselves are candidates (DESIGN 3.9)")
+    ANC = r"HpoTerm::<'.*>::((all_)?(common|union)_ancestor(s|_ids))$"
+    pv_ni = Prov(prog, inline=False)  # the accessor the measure itself names (what that accessor returns is C11/C12 territory)
+
+    def anc_calls(atoms, body):
+        out = {}
+        for a in atoms:
+            if a[0] == "call":
+                m = re.search(ANC, a[1])
+                if m:
+                    out[(a[3], a[4])] = m.group(1)
+        return out
+
+    def anc_args(body_id, bi):
+        fb = prog.bodies[body_id]
+        t = fb.blocks[bi].term
+        root = prog.bodies[fb.root] if fb.kind == "Closure" and fb.root in prog.bodies else fb
+        return [params_of(pv.of_operand(fb, a), root.id) for a in t.args[:2]]
+
+    if rs is not None:
+        cands = {}
+        for bi, t in rs.calls():
+            if t.callee.trait == "std::iter::Iterator" and t.callee.method in ("fold", "reduce", "max_by", "min_by", "max", "min"):
+                cands.update(anc_calls(pv_ni.of_operand(rs, t.args[0]), rs))
+        if not cands:
+            ck.undecided("FIELD", "Resnik/candidates", "the set Resnik reduces over is not recognised", where=rs.where())
+        else:
+            names = sorted(set(cands.values()))
+            ck.ob("FIELD", "Resnik/candidates", all(n.startswith("all_common_ancestor") for n in names), "Resnik takes the most informative term among %s%s" % (names, "" if all(n.startswith("all_common_ancestor") for n in names) else " - expected the INCLUSIVE common ancestors: for an ancestor/descendant pair (or a term with itself) the most informative common ancestor is one of the two terms"), where=rs.where())
+            for (bid, bi), n in sorted(cands.items()):
+                ar = anc_args(bid, bi)
+                ck.ob("FIELD", "Resnik/candidates/args", sorted(map(sorted, ar)) == [[2], [3]], "%s is called on (%s, %s) (expected the two terms a and b)" % (n, sorted(ar[0]), sorted(ar[1])), where=rs.where())
+    gi = prog.body("<similarity::defaults::GraphIc as similarity::Similarity>::calculate")
+    if ck.anchor("FIELD", "impl Similarity for GraphIc", gi):
+        divs = [x for x in float_div_sites(gi) if x["kind"] == "div"]
+        if len(divs) != 1:
+            ck.undecided("FIELD", "GraphIc/ratio", "expected one division in GraphIc::calculate, found %d" % len(divs), where=gi.where())
+        else:
+            d = divs[0]
+            num = anc_calls(pv_ni.of_operand(gi, d["num"]), gi)
+            den = anc_calls(pv_ni.of_operand(gi, d["den"]), gi)
+            nn, dn = sorted(set(num.values())), sorted(set(den.values()))
+            ck.ob("FIELD", "GraphIc/numerator", bool(nn) and all(n.startswith("all_common_ancestor") for n in nn), "GraphIc's numerator sums the IC over %s (expected the inclusive common ancestors)" % (nn or "?"), where=gi.where(d["line"]))
+            ck.ob("FIELD", "GraphIc/denominator", bool(dn) and all(n.startswith("all_union_ancestor") for n in dn), "GraphIc's denominator sums the IC over %s (expected the inclusive union of ancestors)" % (dn or "?"), where=gi.where(d["line"]))
+            for (bid, bi), n in sorted(list(num.items()) + list(den.items())):
+                ar = anc_args(bid, bi)
+                ck.ob("FIELD", "GraphIc/args/" + n, sorted(map(sorted, ar)) == [[2], [3]], "%s is called on (%s, %s) (expected the two terms a and b)" % (n, sorted(ar[0]), sorted(ar[1])), where=gi.where())
+
+    # ------------------------------------------------------------------ FORMULA: the returned expression, as a rational function of its leaves
+    ck.rule("FORMULA", "the non-constant result of each measure, extracted as an expression tree over its leaves (IC of a, IC of b, Resnik(a,b), Lin(a,b), "
+                       "distance, set sizes, IC sums) and normalised to a quotient of polynomials over Q (exp/ln opaque), equals the documented formula; "
+                       "algebraically equal rewrites compare equal, unrecognised leaves make the instance undecided")
+    IMPL = "<similarity::defaults::%s as similarity::Similarity>::calculate"
+
+    def leaf(ex, body, kind, obj):
+        root = prog.bodies[body.root] if body.kind == "Closure" and body.root in prog.bodies else body
+        if kind == "call":
+            t = obj
+            c = t.callee
+            r = c.res or c.name or ""
+            if re.search(r"InformationContent::get_kind$", r):
+                src = pv.of_operand(body, t.args[0])
+                ps = params_of(src, root.id)
+                via = any(a[0] == "call" and a[1].endswith("::information_content") for a in src)
+                if via and ps in ({2}, {3}):
+                    return S("IC(a)" if ps == {2} else "IC(b)")
+                return None
+            m = re.search(r"<similarity::defaults::(Resnik|Lin) as similarity::Similarity>::calculate$", r)
+            if m and len(t.args) == 3:
+                ar = [params_of(pv.of_operand(body, a), root.id) for a in t.args[1:]]
+                if sorted(map(sorted, ar)) == [[2], [3]]:
+                    return S("%s(a,b)" % m.group(1))
+                return S("%s(%s,%s)" % (m.group(1), sorted(ar[0]), sorted(ar[1])))
+            if r.endswith("similarity::usize_to_f32") and len(t.args) == 1:
+                return ex.operand(body, t.args[0])
+            if c.method == "len" and len(t.args) == 1:
+                at = pv_ni.of_operand(body, t.args[0])
+                ops = {a[1].rsplit("::", 1)[-1] for a in at if a[0] == "call" and a[1].rsplit("::", 1)[-1] in ("bitand", "bitor")}
+                if ops == {"bitand"}:
+                    return S("|A&B|")
+                if ops == {"bitor"}:
+                    return S("|A|B|")
+                return None
+            if c.trait == "std::iter::Iterator" and c.method == "sum" and len(t.args) == 1:
+                names = set(anc_calls(pv_ni.of_operand(body, t.args[0]), body).values())
+                gk = [x for fb in prog.family(body) for _, x in fb.calls() if re.search(r"InformationContent::get_kind$", x.callee.res or "")]
+                if len(names) == 1 and gk:
+                    return S("sumIC(%s)" % next(iter(names)))
+                return None
+        if kind == "param" and body.kind == "Closure" and obj[0] == 2:
+            return S("n")
+        return None
+
+    EX = Extract(prog, pv, leaf)
+    Ra, La, ICa, ICb = S("Resnik(a,b)"), S("Lin(a,b)"), S("IC(a)"), S("IC(b)")
+    one, two = C(1), C(2)
+    FORMULAS = [
+        ("Lin", IMPL % "Lin", div(mul(two, Ra), add(ICa, ICb)), "2*Resnik/(IC(a)+IC(b))"),
+        ("Jc", IMPL % "Jc", div(one, add(sub(add(ICa, ICb), mul(two, Ra)), one)), "1/(IC(a)+IC(b)-2*Resnik+1)"),
+        ("Relevance", IMPL % "Relevance", mul(La, sub(one, F("exp", ("neg", Ra)))), "Lin*(1-exp(-Resnik))"),
+        ("InformationCoefficient", IMPL % "InformationCoefficient", mul(La, sub(one, div(one, add(one, Ra)))), "Lin*(1-1/(1+Resnik))"),
+        ("GraphIc", IMPL % "GraphIc", div(S("sumIC(all_common_ancestors)"), S("sumIC(all_union_ancestors)")), "sum IC(common ancestors)/sum IC(union ancestors)"),
+        ("Mutation::gene_similarity", "similarity::defaults::Mutation::gene_similarity", div(S("|A&B|"), S("|A|B|")), "|genes(a) & genes(b)| / |genes(a) | genes(b)|"),
+        ("Mutation::disease_similarity", "similarity::defaults::Mutation::disease_similarity", div(S("|A&B|"), S("|A|B|")), "|diseases(a) & diseases(b)| / |diseases(a) | diseases(b)|"),
+    ]
+    n_formula = 0
+    for name, bid, want, text in FORMULAS:
+        fb = prog.body(bid)
+        if fb is None:
+            if name.startswith("Mutation::"):
+                ck.undecided("FORMULA", name, "private helper %s not found" % name)
+            else:
+                ck.anchor("FORMULA", "impl Similarity for " + name, fb)
+            continue
+        rets = []
+        for kind, pos, d in pv.defs(fb).get(0, []):
+            e = EX.rvalue(fb, d, 0) if kind == "assign" else EX.call(fb, d, 0)
+            rets.append((d.line, e))
+        nonconst = [(ln, e) for ln, e in rets if not (e[0] == "c")]
+        if not nonconst:
+            ck.ob("FORMULA", name, False, "%s returns only constants: the formula %s is not computed" % (name, text), where=fb.where())
+            continue
+        for i, (ln, e) in enumerate(nonconst):
+            eq = expr_equal(e, want)
+            key = name if i == 0 else "%s/%d" % (name, i)
+            if eq is None:
+                ck.undecided("FORMULA", key, "%s: result expression %s has leaves that are not recognised (%s)" % (name, show(e), "; ".join(unknowns(e)[:2])), where=fb.where(ln))
+            else:
+                n_formula += 1
+                ck.ob("FORMULA", key, eq, "%s returns %s %s the documented %s" % (name, show(e), "=" if eq else "which is NOT algebraically equal to", text), where=fb.where(ln))
+    dc = None
+    db = prog.body(IMPL % "Distance")
+    if ck.anchor("FORMULA", "impl Similarity for Distance", db):
+        cl = [fb for fb in prog.family(db) if fb.kind == "Closure"]
+        done = False
+        for fb in cl:
+            for kind, pos, d in pv.defs(fb).get(0, []):
+                e = EX.rvalue(fb, d, 0) if kind == "assign" else EX.call(fb, d, 0)
+                if e[0] == "c":
+                    continue
+                eq = expr_equal(e, div(one, add(S("n"), one)))
+                done = True
+                if eq is None:
+                    ck.undecided("FORMULA", "Distance", "result expression %s not recognised" % show(e), where=fb.where(d.line))
+                else:
+                    n_formula += 1
+                    ck.ob("FORMULA", "Distance", eq, "Distance maps a distance of n steps to %s %s the documented 1/(n+1)" % (show(e), "=" if eq else "which is NOT"), where=fb.where(d.line))
+        if not done:
+            ck.undecided("FORMULA", "Distance", "the mapping from distance to score is not a closure over the distance", where=db.where())
+        srcs = [t for _, t in db.calls() if re.search(r"HpoTerm::<'.*>::distance_to_term$", t.callee.res or "")]
+        ok = bool(srcs) and all(sorted(map(sorted, [params_of(pv.of_operand(db, a), db.id) for a in t.args[:2]])) == [[2], [3]] for t in srcs)
+        ck.ob("FORMULA", "Distance/source", ok, "Distance scores distance_to_term(a, b)" if ok else "Distance does not score distance_to_term of its two arguments", where=db.where())
+    ck.floor("FORMULA", "formula instances decided", n_formula, 6)
+
+    # ------------------------------------------------------------------ KIND: the information-content kind is the one the measure was constructed with
+    n_kind = 0
+    kcnt = {}
+    for b in sorted(prog.production(), key=lambda b: b.id):
+        if b.file != FILE or b.kind not in ("Fn", "AssocFn", "Closure"):
+            continue
+        root = prog.bodies[b.root] if b.kind == "Closure" and b.root in prog.bodies else b
+        if not re.search(r" as similarity::Similarity>::calculate$", root.id):
+            continue
+        for bi, t in b.calls():
+            r = t.callee.res or ""
+            ka = None
+            if re.search(r"InformationContent::get_kind$", r) and len(t.args) == 2:
+                ka = t.args[1]
+            elif re.search(r"^similarity::defaults::(Resnik|Lin|Jc|GraphIc|Relevance|InformationCoefficient|Mutation)::new$", r) and len(t.args) == 1:
+                ka = t.args[0]
+            if ka is None:
+                continue
+            n_kind += 1
+            kcnt[root.short] = kcnt.get(root.short, 0) + 1
+            at = pv.of_operand(b, ka)
+            from_self = "kind" in field_names(at, "similarity::defaults::") or any(a[0] == "param" and a[2] == 1 and any(e[0] == "f" and e[1] == "kind" for e in a[3]) for a in at)
+            consts = [a for a in at if a[0] == "const" or (a[0] == "op" and False)]
+            variants = [st for _, st in b.stmts() if st.k == "assign" and st.rv["k"] == "agg" and (st.rv.get("adt") or "").endswith("InformationContentKind")]
+            ck.ob("KIND", "kind-of-measure/%s/%d" % (root.short, kcnt[root.short]), from_self and not variants, "%s passes %s to %s" % (root.short, "its own `kind`" if from_self and not variants else "a kind that is not (only) the one it was constructed with", r.rsplit("::", 2)[-2] + "::" + r.rsplit("::", 1)[-1]), where=b.where(t.line))
+    ck.floor("KIND", "kind arguments in the measures", n_kind, 10)
 
     # ------------------------------------------------------------------ KIND K1: Mutation helpers
     n = 0
